@@ -30,6 +30,8 @@
 From Coq Require Import ZArith QArith List Bool Sorting.Permutation Sorting.Sorted.
 Import ListNotations.
 Require Import Py PyProofs Pairing Core Multi Wiring Psum DP DPProofs PairingProofs4 ScoreProofs1 ScoreProofs2 ResolverProofs10 ScoreProofs3.
+Require Import Coordinator RunProofs2 RunProofs3 RunProofs4.
+Require ModesExamples.
 Open Scope Z_scope.
 
 (* ---- position scores: perfectMatchScore - distancePenaltyMultiplier * |offset| for a pair, unmatchedPenalty for an unpaired label ---- *)
@@ -212,6 +214,55 @@ Example C04_wiring_example :
   make_params (mkArgs 10 2 (-3) 10 12 9 1 0) = mkP 200 2 (-60) 200 240 90 (inject_Z 1) 0.
 Proof. vm_compute. reflexivity. Qed.
 
+(* ================================================================== whole runs (model/Coordinator.v) ============================== *)
+(* The lift of C04_confidence / C04_segment_reported through __align (candidate rows, best candidate), execute (both passes),
+   filterOutSubsequentAlignmentsForSingleQuery and the four output modes, for EVERY seeding function `seeds`, every parameter set, all maps
+   (the only hypothesis: pairwise distinct query ids, so that a second-pass row is tied to the fragment of ITS query).
+     src_map qs q'      := q' is one of the queries, or a fragment of one (getUnalignedFragments: a prefix, or a suffix with label-number offset)
+     scored_run_row P seeds refs qs w := exists q' sd it, src_map qs q' /\ In sd (seeds refs q') /\
+         aligner_align P it (sd_ref sd) q' (sd_peaks sd) (sd_rev sd) = Ok (rsegs w) /\
+         qid w = mid q' /\ rid w = mid (sd_ref sd) /\ rrev w = sd_rev sd /\
+         conf w = recomputed P (rsegs w) /\
+         Forall (reported P it (sd_ref sd) q' (sd_peaks sd) (sd_rev sd)) (rsegs w) /\
+         (ascending (ties allowed) positions of sd_ref sd and of q' -> conf w = recomputed_raw P (rsegs w))
+       i.e. the record's segments are what Aligner.align returned for ONE candidate (seed sd of map q': reference, strand, secondary peaks),
+       its confidence is the sum over its segments of the sum over their positions of the configured scores, and every segment's positions
+       are scorer images of the engine output for one of the peaks of THAT candidate (`reported`, see the vocabulary at the top).
+   Every row of the additional files has this property; every row of the main file has it or (modes other than `separate`) is a joined
+   row — AlignmentResultRow.resolve of two rows that have it (for those: C04_confidence_joined); in mode `separate` every row has it. *)
+Theorem C04_run_confidence P (seeds : seeding) m maxdiff refs qs o : NoDup (map mid qs) ->
+  program_run P seeds m maxdiff refs qs = Ok o ->
+  (forall w, In w (opt_rows (o_1 o) ++ opt_rows (o_2 o)) -> scored_run_row P seeds refs qs w) /\
+  (forall w, In w (o_main o) -> scored_run_row P seeds refs qs w \/
+     (m <> Separate /\ exists a b, scored_run_row P seeds refs qs a /\ scored_run_row P seeds refs qs b /\ join_rows a b = Ok w)) /\
+  (m = Separate -> forall w, In w (out_rows o) -> scored_run_row P seeds refs qs w).
+Proof. exact (fun Hn => run_rows_scored P seeds refs qs Hn m maxdiff o). Qed.
+Theorem C04_scored_run_row_unfold P (seeds : seeding) refs qs w : scored_run_row P seeds refs qs w <->
+  exists q' sd it, src_map qs q' /\ In sd (seeds refs q') /\
+    aligner_align P it (sd_ref sd) q' (sd_peaks sd) (sd_rev sd) = Ok (rsegs w) /\
+    qid w = mid q' /\ rid w = mid (sd_ref sd) /\ rrev w = sd_rev sd /\
+    conf w = recomputed P (rsegs w) /\
+    Forall (reported P it (sd_ref sd) q' (sd_peaks sd) (sd_rev sd)) (rsegs w) /\
+    (StronglySorted Z.le (mpositions (sd_ref sd)) -> StronglySorted Z.le (mpositions q') -> conf w = recomputed_raw P (rsegs w)).
+Proof. exact (conj (fun H => H) (fun H => H)). Qed.
+(* a joined main-file row of such a run: two segments, each reported for the call its part came from, confidence = their recomputed sum *)
+Theorem C04_run_confidence_joined P (seeds : seeding) refs qs a b w : scored_run_row P seeds refs qs a -> scored_run_row P seeds refs qs b ->
+  join_rows a b = Ok w -> conf w = recomputed P (rsegs w) /\ length (rsegs w) = 2%nat.
+Proof. exact (run_joined_scored P seeds refs qs a b w). Qed.
+
+(* non-vacuity: the run of proofs/ModesExamples.v (default parameters, sp 1000 = 20000/20): first-pass row = 6 perfect pairs, second-pass
+   row (aligned on the fragment, seed 30 kb to the left) = 6 perfect pairs: confidence 6 x 20000 each, recomputed; the joined row of mode
+   `all` has 12 pairs and confidence 240000 *)
+Example C04_run_nonvacuous :
+  NoDup (map mid [ModesExamples.ex_query]) /\
+  match program_run ModesExamples.ex_P ModesExamples.ex_seeds All_ 110000 [ModesExamples.ex_ref] [ModesExamples.ex_query] with
+  | Ok o => map (fun w => (conf w, recomputed ModesExamples.ex_P (rsegs w), recomputed_raw ModesExamples.ex_P (rsegs w), length (row_pairs (rsegs w))))
+                (o_main o ++ opt_rows (o_1 o) ++ opt_rows (o_2 o))
+            = [(240000, 240000, 240000, 12%nat); (120000, 120000, 120000, 6%nat); (120000, 120000, 120000, 6%nat)]
+  | Err => False
+  end.
+Proof. split; [exact ex_ids|]. vm_compute. reflexivity. Qed.
+
 Print Assumptions C04_pair_score.
 Print Assumptions C04_factory_subrun.
 Print Assumptions C04_segment_score.
@@ -228,3 +279,6 @@ Print Assumptions C04_no_gap_factory.
 Print Assumptions C04_no_gap_partial.
 Print Assumptions C04_no_gap.
 Print Assumptions C04_args_wired.
+Print Assumptions C04_run_confidence.
+Print Assumptions C04_scored_run_row_unfold.
+Print Assumptions C04_run_confidence_joined.
